@@ -16,7 +16,7 @@ import xml.etree.ElementTree as ET
 
 from vt import girgen, typelib
 from vt.c import build as cbuild, gens, tools, walkmodel
-from vt.checks.c06 import make_doc
+from vt.checks.c06 import make_doc, batch_keys
 from vt.core import Part, pmap, chunked, rotate, HarnessBroken
 
 LEVEL = 'model_checking'
@@ -479,7 +479,7 @@ def run(ctx):
         cbuild.build(True)
     entries = gens.all_entries(ctx.tier)
     keys = [k for k, e in entries if k not in gens.SUPPORT]
-    batches = [keys[i:i + BATCH] for i in range(0, len(keys), BATCH)]
+    batches = batch_keys(keys, BATCH)
     ctx.set(rule='every entry of vt/c/gens.py (%s domains) compiled in batches of %d; each typelib is (a) walked through '
                  'every public accessor by drv_walk%s and compared line by line with the facts computed from the bytes by '
                  'the independent decoder, (b) turned back into GIR by g-ir-generate and compared with the decoded model. '
